@@ -322,8 +322,11 @@ type c05Ref struct {
 	BadSeg    string   `json:"undefined_segment,omitempty"`
 	IndexLits []string `json:"index_literals_not_lower_case,omitempty"`
 	Style     string   `json:"style"`
-	Line      int      `json:"scalar_line"` // line on which the scalar starts
-	Pos       Pos      `json:"token_pos"`   // first token of the reference
+	OpPath    []string `json:"operator_path"` // operand positions from the root of the expression to the reference
+	Line      int      `json:"scalar_line"`   // line on which the scalar starts
+	Pos       Pos      `json:"token_pos"`     // first token of the reference
+
+	emPre, emText, emPost string // the expression around the reference as emitted (quotes doubled in single-quoted scalars)
 }
 
 // lostToIndexCase: the diagnostic names, verbatim, an index literal of the reference that is not in
@@ -364,6 +367,63 @@ func c05SilentWithLowerCaseLiterals(src string, rf *c05Ref) bool {
 		}
 	}
 	return true
+}
+
+func c05IsLogical(l string) bool {
+	for _, x := range c05LogicalLabels {
+		if x == l {
+			return true
+		}
+	}
+	return false
+}
+
+// c05PathShape names the operand position class for a signature: the type-narrowing shape if the
+// path contains one, else the (up to three) innermost operand positions.
+func c05PathShape(path []string) string {
+	np := c05NormPath(path)
+	for _, sh := range c05NarrowShapes {
+		if strings.Contains(np, sh) {
+			return strings.Trim(sh, ">")
+		}
+	}
+	var labs []string
+	for _, l := range path {
+		if l != "()" {
+			labs = append(labs, l)
+		}
+	}
+	if len(labs) > 3 {
+		labs = labs[len(labs)-3:]
+	}
+	return strings.Join(labs, ">")
+}
+
+// c05BareVerdictDiffers re-lints the workflow with the expression tree of one reference replaced by
+// toJSON(<reference>) (same line, same scalar) and tells whether the reported-or-not verdict on
+// that line is then the opposite of `reported`.
+func c05BareVerdictDiffers(src string, rf *c05Ref, reported bool) bool {
+	lines := strings.Split(src, "\n")
+	if rf.Pos.Line < 1 || rf.Pos.Line > len(lines) {
+		return false
+	}
+	old := rf.emPre + rf.emText + rf.emPost
+	l := lines[rf.Pos.Line-1]
+	if old == "" || strings.Count(l, old) != 1 {
+		return false
+	}
+	lines[rf.Pos.Line-1] = strings.Replace(l, old, "toJSON("+rf.emText+")", 1)
+	ds, err := lintSrc(strings.Join(lines, "\n"))
+	if err != nil {
+		return false
+	}
+	now := false
+	for _, d := range ds {
+		if d.Line == rf.Line && c05NotDefinedRe.MatchString(d.Msg) {
+			now = true
+		}
+	}
+	return now != reported
 }
 
 var c05NotDefinedRe = regexp.MustCompile(`^property "([^"]*)" is not defined in object type `)
@@ -468,6 +528,11 @@ func c05Check(c *Case, prof string) {
 			if !reported && rf.Where == "matrix.include element" {
 				sig = "C05:reference-inside-include-element-expression:missed"
 			}
+			if len(rf.OpPath) > 0 && c05BareVerdictDiffers(src, rf, reported) {
+				// the same reference directly under toJSON() in the same scalar gets the other verdict:
+				// the operand position, not the scope, decides
+				sig = fmt.Sprintf("C05:operand-position:%s:%s", c05PathShape(rf.OpPath), kind)
+			}
 			what := fmt.Sprintf("reference `%s` (%s, %s) at line %d in %s: scope model says %s, so a `not defined` report is %s, but actionlint %s",
 				rf.Text, rf.Class, rf.Sub, rf.Line, rf.Where, rf.Verdict, map[bool]string{true: "required", false: "forbidden"}[rf.Report],
 				map[bool]string{true: "reported " + fmt.Sprint(diagStrings(gd)), false: "reported nothing"}[reported])
@@ -478,6 +543,28 @@ func c05Check(c *Case, prof string) {
 		c.SetAdd("observed_sub", rf.Class+":"+rf.Sub+":"+rf.Verdict)
 		c.SetAdd("positions", rf.Where)
 		c.SetAdd("styles", rf.Style)
+		// operand-position coverage: operator path from the root of the expression to the reference
+		np := c05NormPath(rf.OpPath)
+		var labs []string
+		for _, l := range rf.OpPath {
+			if l != "()" {
+				labs = append(labs, l)
+				c.SetAdd("operand_positions", l+":"+dir)
+			}
+		}
+		c.SetAdd("operand_depths", fmt.Sprintf("%d:%s", len(labs), dir))
+		c.SetAdd("operand_paths", np+dir)
+		for i, l := range labs {
+			c.SetAdd("operand_positions_by_level", fmt.Sprintf("%d/%s:%s", i+1, strings.SplitN(l, "#", 2)[0], dir))
+			if i+1 < len(labs) && c05IsLogical(l) && c05IsLogical(labs[i+1]) {
+				c.SetAdd("logical_pairs", l+">"+labs[i+1]+":"+dir)
+			}
+		}
+		for _, sh := range c05NarrowShapes {
+			if strings.Contains(np, sh) {
+				c.SetAdd("narrowing_shapes", sh+":"+dir)
+			}
+		}
 		if reported {
 			// informational: token position and named property (fixed by C07/C08, not by C05)
 			exact := false
@@ -516,7 +603,7 @@ func c05Check(c *Case, prof string) {
 }
 
 func runC05(r *Run) {
-	r.Rule = "seeded workflow models (1-6 jobs incl. reusable-workflow-call jobs, random needs DAG, declared outputs, 1-6 steps with ids at random places, matrices with rows/include/exclude/nested mapping values, workflow_call and/or workflow_dispatch inputs, secrets, outputs; matrix / row / include / include element / value / step id given by ${{ }}) rendered to YAML with keys in random order, names in random letter case, dotted and index syntax, plain/quoted/block scalars; one reference per scalar and one reference-bearing scalar per line, at ~47 kinds of positions where the context is available. A scope model written from the statement decides per reference whether a `property ... is not defined in object type` diagnostic must exist on the line of its scalar. quick 1000 workflows (~3.4e4 references), thorough 20000. Non-trivial = distinct workflow containing at least one reference that must be reported and one that must not."
+	r.Rule = "seeded workflow models (1-6 jobs incl. reusable-workflow-call jobs, random needs DAG, declared outputs, 1-6 steps with ids at random places, matrices with rows/include/exclude/nested mapping values, workflow_call and/or workflow_dispatch inputs, secrets, outputs; matrix / row / include / include element / value / step id given by ${{ }}) rendered to YAML with keys in random order, names in random letter case, dotted and index syntax, plain/quoted/block scalars; each reference sits at one operand position of a random operator/function tree of depth 0-5 (!, &&, ||, the six comparisons, parentheses, format/toJSON/fromJSON/contains/startsWith/endsWith arguments, index) whose other leaves are context-free literals, with floors over every operand position, every nested pair of logical positions, nesting levels 1-4 and the type-narrowing shapes (X && a || b, !(X || y) || z, ...); one reference per scalar and one reference-bearing scalar per line, at ~47 kinds of positions where the context is available. A scope model written from the statement decides per reference whether a `property ... is not defined in object type` diagnostic must exist on the line of its scalar. quick 1000 workflows (~3.4e4 references), thorough 20000. Non-trivial = distinct workflow containing at least one reference that must be reported and one that must not."
 	r.Assume("the generated workflows produce no diagnostics other than `property ... is not defined in object type` (any other diagnostic is reported as a violation of the harness domain)")
 	r.Assume("comparison is per reference = per scalar (line of the scalar); the exact column is C07's, letter case of names C08's")
 	r.Assume("excluded (statement silent): properties of scalar/mixed matrix rows, nested properties not declared literally when include is an expression, outputs of reusable-workflow-call jobs, input default values, constant fromJSON('...') sections, ACTIONS_STEP_DEBUG/ACTIONS_RUNNER_DEBUG")
@@ -540,6 +627,34 @@ func runC05(r *Run) {
 		for _, dir := range []string{"in", "out"} {
 			if !r.SetHas("observed", cl+":"+dir) {
 				r.Inconclusive(fmt.Sprintf("coverage floor: no agreeing reference of class %s / %s scope observed", cl, dir))
+			}
+		}
+	}
+	for _, l := range c05OperandLabels {
+		for _, dir := range []string{"in", "out"} {
+			if !r.SetHas("operand_positions", l+":"+dir) {
+				r.Inconclusive(fmt.Sprintf("coverage floor: no reference (%s scope) observed at operand position %s", dir, l))
+			}
+		}
+	}
+	for _, a := range c05LogicalLabels {
+		for _, b := range c05LogicalLabels {
+			if !r.SetHas("logical_pairs", a+">"+b+":out") {
+				r.Inconclusive("coverage floor: no out-of-scope reference observed under the nested logical operand positions " + a + ">" + b)
+			}
+		}
+	}
+	for _, sh := range c05NarrowShapes {
+		for _, dir := range []string{"in", "out"} {
+			if !r.SetHas("narrowing_shapes", sh+":"+dir) {
+				r.Inconclusive(fmt.Sprintf("coverage floor: no reference (%s scope) observed at the type-narrowing operand shape %s", dir, sh))
+			}
+		}
+	}
+	for lv := 1; lv <= 4; lv++ {
+		for _, l := range c05LogicalLabels {
+			if !r.SetHas("operand_positions_by_level", fmt.Sprintf("%d/%s:out", lv, l)) {
+				r.Inconclusive(fmt.Sprintf("coverage floor: no out-of-scope reference observed at operand position %s on nesting level %d", l, lv))
 			}
 		}
 	}
